@@ -7,6 +7,8 @@
     > lexnum|lexdur <hex> → < num <len> | dur <len> | err   (lexNumberOrDuration / lexDuration of SH.Model.PromLex)
     > pdur <hex>       →  < secs <n>|X                 (parseDuration on a DURATION token's text)
     > durtext <n>      →  < text <hex>                 (`%ds`)
+    > lexall <hex>     →  < all NAME:len … EOF|ERR        (SH.Model.PromLexAll.lexAll: the whole lexer state machine)
+    > atms <hex>       →  < ms <k>|X                   (decimal seconds of an `@` literal → milliseconds)
     > lexword <hex>    →  < word <len> <TOKEN>         (lexKeywordOrIdentifier + keyword table = classifyKind)
     > print <ast>      →  < toks <tokens>             (model `printExpr .fixed`, numbers/durations/strings reduced to
                                                        raw text / value exactly as the harness reduces the lexed real output)
@@ -14,6 +16,7 @@
 import Driver.Common
 import SH.Model.PromSyntax
 import SH.Model.PromLex
+import SH.Model.PromLexAll
 
 open SH SH.PromSyntax
 
@@ -254,6 +257,19 @@ def step (_ : Unit) (toks : List String) : Unit × List String :=
     match n.toNat? with
     | some n => ((), ["text " ++ showHex ((SH.PromLex.printSeconds n).map UInt8.ofNat)])
     | none => ((), ["bad-op"])
+  | ["lexall", hx] =>          -- the whole lexer on a text: token names and lengths up to EOF / the first error
+    match parseHex? hx with
+    | none => ((), ["bad-op"])
+    | some bs =>
+      let r := SH.PromLex.lexAll (bs.map (·.toNat))
+      let toks := r.1.map (fun t => t.name ++ ":" ++ toString t.len)
+      ((), [" ".intercalate ("all" :: toks ++ [match r.2 with | .eof => "EOF" | .err => "ERR"])])
+  | ["atms", hx] =>            -- decimal seconds → ms of an `@` literal
+    match parseHex? hx with
+    | none => ((), ["bad-op"])
+    | some bs => match SH.PromLex.atMs (bs.map (·.toNat)) with
+      | some k => ((), ["ms " ++ toString k])
+      | none => ((), ["ms X"])
   | ["lexword", hx] =>         -- lexKeywordOrIdentifier: length of the word and the token the keyword table makes of it
     match parseHex? hx with
     | none => ((), ["bad-op"])
